@@ -192,6 +192,15 @@ func runC02(c *eng.Ctx) {
 	c.Floor(8)
 
 	// ---- R02.4 leader side
+	c.Rule("R05.5", "K2")
+	ruleEpochTrimAtRecovery(c)
+	c.Floor(2)
+	c.Rule("R04.5", "K3")
+	ruleAddedReplicaUnconfirmed(c)
+	c.Floor(1)
+	c.Rule("R07.9", "K2")
+	ruleISRPersisted(c)
+	c.Floor(2)
 	c.Rule("R02.8", "K5")
 	ruleEpochCacheShapes(c)
 	c.Floor(9)
